@@ -124,8 +124,14 @@ func (e *EpochNotifierPerBlock) GetEpochStatus() types.EpochStatus {
 }
 
 func (e *EpochNotifierPerBlock) startInternal(ctx context.Context, eventNewBlockChannel <-chan types.EventNewBlock) {
+	// no block has been seen yet: the starting block itself must not be taken as already seen,
+	// otherwise it can never trigger the notification of the first epoch
+	lastBlockSeen := e.Config.StartingEpochBlock
+	if lastBlockSeen > 0 {
+		lastBlockSeen--
+	}
 	status := internalStatus{
-		lastBlockSeen:   e.Config.StartingEpochBlock,
+		lastBlockSeen:   lastBlockSeen,
 		waitingForEpoch: e.epochNumber(e.Config.StartingEpochBlock),
 	}
 	for {
